@@ -1,0 +1,27 @@
+//go:build verif
+
+package cidenc
+
+// This file is only compiled with the build tag "verif".  It lets an external
+// verification harness move the private-use cursor of the UTF-8 encoder close
+// to the end of a private-use area (reaching it through Encode takes 137 000
+// calls); it changes nothing in normal builds.
+
+// VerifSetNextPrivate sets the private-use cursor of an encoder made by
+// NewCompositeUtf8.  It reports whether e is such an encoder.
+func VerifSetNextPrivate(e CIDEncoder, r rune) bool {
+	u, ok := e.(*compositeUTF8)
+	if ok {
+		u.nextPrivate = r
+	}
+	return ok
+}
+
+// VerifNextPrivate returns the private-use cursor.
+func VerifNextPrivate(e CIDEncoder) (rune, bool) {
+	u, ok := e.(*compositeUTF8)
+	if !ok {
+		return 0, false
+	}
+	return u.nextPrivate, true
+}
